@@ -92,6 +92,13 @@ impl Bank {
         self.data[seg_rng].copy_from_slice(segment.range_data());
     }
 
+    /// The PRG header for the given bank: it is written to the same file as that bank
+    pub fn prg_header_for(bank: &Bank) -> Bank {
+        let mut header = Bank::prg_header(bank.range().start);
+        header.options.filename = bank.options.filename.clone();
+        header
+    }
+
     pub fn prg_header(pc: usize) -> Bank {
         debug_assert!(pc < 65536);
         Bank {
